@@ -26,6 +26,19 @@ pub(crate) mod verif_u2 {
         Ok(out)
     }
 
+    static ACKS: AtomicUsize = AtomicUsize::new(0);
+    /// stand-in for `send_input_ack` where the ack message itself is not the subject: counts calls
+    fn stub_send_input_ack<T: Config>(_this: &mut UdpProtocol<T>) {
+        ACKS.store(ACKS.load(Ordering::Relaxed) + 1, Ordering::Relaxed);
+    }
+    /// stand-in for `to_player_inputs` on paths where nothing may be decoded anyway
+    fn stub_to_player_inputs_err<T: Config>(
+        _this: &InputBytes,
+        _n: usize,
+    ) -> Result<Vec<PlayerInput<T::Input>>, String> {
+        Err(String::new())
+    }
+
     fn input_msg(start: Frame, ack: Frame) -> Message {
         Message {
             header: MessageHeader { magic: MAGIC_REMOTE },
@@ -65,6 +78,7 @@ pub(crate) mod verif_u2 {
             #[kani::stub(crate::network::protocol::millis_since_epoch, stub_millis)]
             #[kani::stub(crate::network::compression::decode, stub_decode_tape)]
             #[kani::stub(alloc::fmt::format, stub_format)]
+            #[kani::stub(crate::network::protocol::UdpProtocol::send_input_ack, stub_send_input_ack)]
             fn $name() {
                 // frame numbers are concrete per instance (every start frame in [L-1, L+2] x k in 1..3 is
                 // instantiated); the packet's values, ack and gossip are symbolic
@@ -72,6 +86,7 @@ pub(crate) mod verif_u2 {
                 let mut ep = receiver_at(l, 1);
                 let s: Frame = $s;
                 let vals: [u8; 3] = kani::any();
+                ACKS.store(0, Ordering::Relaxed);
                 DEC_N.store($k, Ordering::Relaxed);
                 DEC_V[0].store(vals[0], Ordering::Relaxed);
                 DEC_V[1].store(vals[1], Ordering::Relaxed);
@@ -102,13 +117,10 @@ pub(crate) mod verif_u2 {
                     assert!(ep.last_recv_frame() == l);
                 }
                 if base_known {
-                    // acknowledged with the newest received frame
-                    assert!(ep.send_queue.len() == 1);
-                    match ep.send_queue[0].body {
-                        MessageBody::InputAck(a) => assert!(a.ack_frame == ep.last_recv_frame()),
-                        _ => assert!(false, "expected an InputAck"),
-                    }
-
+                    // acknowledged exactly once (the ack's content is decided by u_input_ack_content)
+                    assert!(ACKS.load(Ordering::Relaxed) == 1);
+                } else {
+                    assert!(ACKS.load(Ordering::Relaxed) == 0);
                 }
                 // C18: remembered inputs stay within [newest - 2w, newest]
                 let lr = ep.last_recv_frame();
@@ -180,6 +192,7 @@ pub(crate) mod verif_u2 {
             #[kani::stub(crate::network::protocol::millis_since_epoch, stub_millis)]
             #[kani::stub(crate::network::compression::decode, stub_decode_tape)]
             #[kani::stub(alloc::fmt::format, stub_format)]
+            #[kani::stub(crate::network::protocol::InputBytes::to_player_inputs, stub_to_player_inputs_err)]
             fn $name() {
                 let l: Frame = $l;
                 let mut ep = receiver_at(l, $w);
@@ -206,6 +219,25 @@ pub(crate) mod verif_u2 {
     lost_ack_reply!(u_lost_ack_reply_w0_old, 0, 8, 3);
     lost_ack_reply!(u_lost_ack_reply_w1_three_lost, 1, 8, 6); // window 1: three lost acks (base 5)
     lost_ack_reply!(u_lost_ack_reply_w2_five_lost, 2, 8, 4); // window 2: five lost acks (base 3)
+
+    /// send_input_ack queues exactly one InputAck carrying the newest received frame.
+    #[kani::proof]
+    #[kani::unwind(8)]
+    #[kani::stub(crate::network::protocol::millis_since_epoch, stub_millis)]
+    fn u_input_ack_content() {
+        let l: Frame = kani::any();
+        kani::assume(l >= 2 && l < (1 << 20));
+        let mut ep = receiver_at(l, 1);
+        ep.send_input_ack();
+        assert!(ep.send_queue.len() == 1);
+        match ep.send_queue[0].body {
+            MessageBody::InputAck(a) => assert!(a.ack_frame == l),
+            _ => assert!(false, "expected an InputAck"),
+        }
+        assert!(ep.send_queue[0].header.magic == super::verif_u::MAGIC_LOCAL);
+        kani::cover!(true, "reached");
+        core::mem::forget(ep);
+    }
 
     /// Acknowledgements (InputAck or piggy-backed): exactly the pending outputs with frame <= ack are
     /// released, the newest released one becomes the encoding base, and what stays pending starts
